@@ -80,6 +80,9 @@ type RedisCfg struct {
 	FragNum         int    `json:"frag_num,omitempty"`
 	FragDen         int    `json:"frag_den,omitempty"`
 	BufCap          int    `json:"buf_cap,omitempty"`
+	// SeedNodes: when not empty the host list consists of these nodes only (the other nodes exist in the cluster and are
+	// reached through redirections, but discovery has not announced them)
+	SeedNodes []int `json:"seed_nodes,omitempty"`
 	// BackupHosts: this many extra members of type backup in the host list (standby addresses where nothing
 	// listens); while a main member is usable the service must not use them for anything
 	BackupHosts int `json:"backup_hosts,omitempty"`
@@ -180,6 +183,15 @@ func (e *RedisEnv) Hosts() []*host.Host {
 	for _, n := range e.Cluster.Nodes {
 		if e.Cfg.SeedMasters && n.MasterOf >= 0 {
 			continue
+		}
+		if len(e.Cfg.SeedNodes) > 0 {
+			in := false
+			for _, i := range e.Cfg.SeedNodes {
+				in = in || i == n.Idx
+			}
+			if !in {
+				continue
+			}
 		}
 		hs = append(hs, host.New(n.Addr))
 	}
